@@ -562,6 +562,9 @@ pub enum Op {
     InsRef(u8, u8),
     SetParent(u8, u8),
     ClearParent(u8),
+    /// Spawn slot with `mask` as a child of the parent slot: marker, components and `ChildOf`
+    /// arrive in one bundle.
+    SpawnChild(u8, u16, u8),
     /// Spawn slot with `mask` and, in the same instant, `R` pointing at target (the target may
     /// be spawned by the same op sequence later in the tick window).
     /// Big payload insert/mutate with a given length class.
@@ -587,6 +590,16 @@ impl Op {
                     .map(ctag_name)
                     .collect::<Vec<_>>()
                     .join(",")
+            ),
+            Op::SpawnChild(s, m, p) => format!(
+                "spawn e{}{{{}}} as child of e{}",
+                s + 1,
+                (1..8u8)
+                    .filter(|t| m & (1 << t) != 0)
+                    .map(ctag_name)
+                    .collect::<Vec<_>>()
+                    .join(","),
+                p + 1
             ),
             Op::Despawn(s) => format!("despawn e{}", s + 1),
             Op::Unmark(s) => format!("unmark e{}", s + 1),
@@ -852,6 +865,7 @@ impl Sim {
         match op {
             Op::Nop => true,
             Op::Spawn(s, _) => self.alive(s).is_none(),
+            Op::SpawnChild(s, _, p) => s != p && self.alive(s).is_none() && self.marked(p),
             // Entities that a live reference (R or ChildOf) points at are never despawned or
             // unmarked through the alphabet: dangling references are outside every property.
             // (A parent may be despawned: its children go with it, nothing is left dangling.)
@@ -963,7 +977,7 @@ impl Sim {
             Op::MutBig(s, _) | Op::InsBig(s, _) => {
                 self.last_edit.insert((s + 1, TBIG), (v, None));
             }
-            Op::Spawn(s, mask) => {
+            Op::Spawn(s, mask) | Op::SpawnChild(s, mask, _) => {
                 for t in 1..8u8 {
                     if mask & (1 << t) != 0 {
                         self.last_edit.insert((s + 1, t), (v, None));
@@ -996,6 +1010,21 @@ impl Sim {
                     e.insert(O(val(etag, TO, v)));
                 }
                 let id = e.id();
+                self.ents[s as usize] = Some(id);
+            }
+            Op::SpawnChild(s, mask, p) => {
+                let etag = s + 1;
+                let pe = self.alive(p).unwrap();
+                let id = match (mask & (1 << TA) != 0, mask & (1 << TB) != 0) {
+                    (true, true) => self
+                        .server
+                        .world_mut()
+                        .spawn((Replicated, A(val(etag, TA, v)), B(val(etag, TB, v)), ChildOf(pe)))
+                        .id(),
+                    (true, false) => self.server.world_mut().spawn((Replicated, A(val(etag, TA, v)), ChildOf(pe))).id(),
+                    (false, true) => self.server.world_mut().spawn((Replicated, B(val(etag, TB, v)), ChildOf(pe))).id(),
+                    (false, false) => self.server.world_mut().spawn((Replicated, ChildOf(pe))).id(),
+                };
                 self.ents[s as usize] = Some(id);
             }
             Op::Despawn(s) => {
